@@ -33,6 +33,7 @@ class SpliceTime(ObjectWithFields):
             r.get(6, 'reserved')
             r.read(33, 'pts')
         else:
+            r.get(7, 'reserved')
             kwargs['pts'] = None
         return kwargs
 
@@ -40,6 +41,7 @@ class SpliceTime(ObjectWithFields):
         w = BitsFieldWriter(self, dest)
         if self.pts is None:
             w.write(1, 'time_specified_flag', value=0)
+            w.write(7, 'reserved', 0x7F)
         else:
             w.write(1, 'time_specified_flag', value=1)
             w.write(6, 'reserved', 0x3F)
